@@ -27,7 +27,7 @@ ASSUMPTIONS = [
     "default on an AnyField (the caller's object is handed out like a mutable default argument) and mutable items "
     "nested inside an untyped container default (only the container is copied) are not mutated by the harness",
 ]
-REQUIRED = ["serialize", "cross-assign+edit", "cross-assign+edit:list", "cross-assign+edit:dict", "observer:before", "observer:middle", "observer:after", "inplace:typed", "inplace:untyped", "shared-item-type", "dynamic-add"]
+REQUIRED = ["include-load", "serialize", "cross-assign+edit", "cross-assign+edit:list", "cross-assign+edit:dict", "observer:before", "observer:middle", "observer:after", "inplace:typed", "inplace:untyped", "shared-item-type", "dynamic-add"]
 LEVEL_TEXT = (
     "Generated schemas and histories on one instance with an untouched observer instance and a frozen schema "
     "snapshot as oracle; kills mutants that stop copying default containers, register dynamic fields on the "
@@ -81,6 +81,15 @@ def strategy(tier):
 
     def hist(spec):
         spec = _mutable_defaults(_share_items(spec), ["const", "const", "callable"])
+        # include fields without a start directory, at the root and in the first nested schema
+        inc = {"kind": "include", "key": "zzinc", "req": False, "validator": None, "opts": {"startdir": None}, "default": {"mode": "none"}}
+        kids, done = [], False
+        for c in spec["children"]:
+            if not done and c["kind"] == "schema" and "zzinc" not in {x["key"] for x in c["children"]}:
+                c = dict(c, children=list(c["children"]) + [inc])
+                done = True
+            kids.append(c)
+        spec = dict(spec, children=[c for c in kids if c["key"] != "zzinc"] + [inc])
         leaves = ops.spec_leaves(spec)
         untyped = [i for i, (p, nd) in enumerate(leaves) if (nd["kind"] == "list" and not nd.get("item")) or (nd["kind"] == "dict" and not (nd.get("keyf") or nd.get("valuef")))]
         extra = []
@@ -90,6 +99,8 @@ def strategy(tier):
         # only typed scalar-item containers: the library wraps those into its own object; handing one and the same
         # caller-owned object (untyped list, configuration item) to two configurations is caller-made aliasing
         extra.append(st.fixed_dictionaries({"op": st.just("serialize"), "how": st.sampled_from(["to_tree", "to_tree-virtual", "dumps-json", "dumps-pickle", "asdict", "stub"])}))
+        # A loads a document that names an existing include file by its absolute path
+        extra.append(st.fixed_dictionaries({"op": st.just("include_load"), "fmt": st.sampled_from(["json", "yaml", "xml"]), "which": st.integers(0, 1)}))
         containers = [i for i, (p, nd) in enumerate(leaves) if (nd["kind"] == "list" and nd.get("item") and nd["item"]["kind"] != "any")
                       or (nd["kind"] == "dict" and (nd.get("keyf") or nd.get("valuef")))]  # (a list of AnyField items is stored as the caller's own list)
         if containers:
@@ -247,6 +258,22 @@ def run_case(case, R):
                     R.label("serialize")
                 except Exception:
                     pass
+            elif name == "include_load":
+                incs = [p for p, nd in leaves if nd["kind"] == "include"]
+                ipath = incs[op["which"] % len(incs)]
+                fmtr = cc.ConfigFormat.get(op["fmt"])
+                target = os.path.join(d, "included-%d.%s" % (i, op["fmt"]))
+                with open(target, "wb") as fp:
+                    fp.write(fmtr.dumps(state["cfg"], {}))
+                tree = target
+                for k in reversed(ipath):
+                    tree = {k: tree}
+                try:
+                    state["cfg"].loads(fmtr.dumps(state["cfg"], tree), op["fmt"])
+                    R.label("include-load")
+                except Exception:
+                    pass  # (e.g. a required field elsewhere is unset: the load is rejected after the include was processed)
+                    R.label("include-load")
             elif name == "cross_assign":
                 # A takes over the value B holds for one field; later in-place edits of A's value must not reach B
                 if observers:
